@@ -86,6 +86,9 @@ def main():
             name, variant, r, nrep, nex = items[i]
             sub = subs[name]
             t0 = time.time()
+            if ctx.out_of_time():
+                ctx.notes.append(f"item {i} {name}/{variant}/r{r}: not started, wall-clock budget used up")
+                continue
             if sub.enumerate is not None:
                 core.drive_enumeration(sub, variant, r, nrep, ctx)
             elif sub.stateful is not None:
@@ -97,6 +100,8 @@ def main():
         status, err = "harness_error", str(e)
     except Exception as e:  # noqa
         status, err = "harness_error", "".join(traceback.format_exception(type(e), e, e.__traceback__))
+    if ctx.budget_skipped:
+        ctx.notes.append(f"budget: {ctx.budget_skipped} generated cases / enumeration tails skipped after the wall-clock budget (inconclusive for those)")
     out = ctx.dump()
     out["status"] = status
     out["error"] = err
